@@ -115,9 +115,9 @@ class C04(Prop):
         for n in (15, 16, 17, 31, 32, 33, 63, 64, 65, 127, 128, 129, 255, 256, 257):
             for rep in range(2 if tier == "quick" else 12):
                 dens = rng.choice([0, 1, 3, 8])
-                pattern = [None if rng.below(10) < dens else i + 1 for i in range(n)]
+                pattern = [None if rng.below(10) < dens else (i % 100) + 1 for i in range(n)]     # fits every element type
                 if rep % 2 == 0 and n >= 2:
-                    pattern[0], pattern[-1] = None, n
+                    pattern[0], pattern[-1] = None, 101
                 yield mk_remove_case(rng.choice(ets), pattern, rng.choice([1, -1, 2, -3]), rng.below(2), rng.below(2), nanvar=rng.below(5))
 
     def corpus(self):
